@@ -20,7 +20,9 @@ PROPS["C16"] = {
     "assumptions": ["names are well-formed: table and id non-empty, at least two commas, no comma in table or id"],
     "jobs": [
         {"name": "compare_oracle", "pkg": "region", "entry": "VerifCompareOracle", "reach": ["compared"],
-         "params": {"quick": {"L": 7}, "thorough": {"L": 10}}},
+         "params": {"quick": {"L": 7}, "thorough": {"L": 11}}},
+        {"name": "compare_test_vectors", "pkg": "region", "entry": "VerifCompareTestVectors", "reach": ["vectors"], "sample_pass": 1,
+         "params": {"quick": {}, "thorough": {}}},
         {"name": "compare_antisym", "pkg": "region", "entry": "VerifCompareAntisym",
          "params": {"quick": {"L": 6}, "thorough": {"L": 8}}},
         {"name": "compare_trans", "pkg": "region", "entry": "VerifCompareTrans", "reach": ["chain"],
